@@ -152,7 +152,12 @@ def h_drv(T: int, dt: int, s0: int, e0: int, s1: int, e1: int, a0: bool, a1: boo
     for v in (v0, v1, v2):
         sim = sso.add_vehicle_safe(sim, v).unwrap()
 
+    snap0 = I.snap_sim(sim)
+
     sim2 = perform_driver_state_updates(sim, env)  # ---- real code
+
+    if not I.deq(snap0, I.snap_sim(sim)):
+        return False  # the state the update started from reads the same afterwards (C16)
 
     want0 = _in_shift(s0, e0, T % DAY)
     want1 = _in_shift(s1, e1, T % DAY)
@@ -208,8 +213,12 @@ def h_step_shift(T: int, s0: int, e0: int, a0: bool) -> bool:
     sim = sso.add_request_safe(sim, A.R0).unwrap()
     step = StepSimulation.from_tuple((Dispatcher(env.config.dispatcher),))
 
+    snap0 = I.snap_sim(sim)
+
     sim2, _ = step.update(sim, env)  # ---- real code
 
+    if not I.deq(snap0, I.snap_sim(sim)):
+        return False  # the state the step started from reads the same afterwards (C16)
     on = _in_shift(s0, e0, T % DAY)
     st = sim2.vehicles["v0"].vehicle_state
     heading = isinstance(st, (A.DispatchTrip, A.ServicingTrip))
